@@ -197,6 +197,30 @@ func evalC19Stub(b *Bundle, r *Runner, exp *c19Expect) []*Violation {
 			}
 		}
 	}
+	// a function that stays broken: every evaluation that reaches it fails, the second Exec of the same Query included -
+	// what the first, failed Exec still owed (work deferred while the query was built) is not forgotten with it
+	for _, site := range exp.FQ.Sites {
+		if counts[site] == 0 {
+			continue
+		}
+		fc := base
+		fc.Stubs.Faults = []casefmt.Fault{{ID: site, K: 1, Kind: "error", Persistent: true}}
+		o := r.Run(&fc, false)
+		if hv := processHealth(b, o); len(hv) > 0 || len(o.Ops) != 3 {
+			continue
+		}
+		what := fmt.Sprintf("site %d (%s) failing on every invocation in %q", site, positionOfSite(exp, site), exp.FQ.Query)
+		if v := judgeFailed(b, o, &o.Ops[0], what); v != nil {
+			vs = append(vs, v)
+			continue
+		}
+		if e2 := o.Ops[0].Exec2; e2 == "ok" {
+			vs = append(vs, mkViolation(b, "SECOND_EXEC_DIFFERS", "persistent_fault", fmt.Sprintf("%s\n the first Exec failed; Exec called again on the same Query, the function still failing, returned a result: %s", what, compact(o.Ops[0].Rows2)), o))
+			continue
+		} else if e2 != "" {
+			r.Stats.probe("second_exec_under_persistent_fault_failed_again")
+		}
+	}
 	if total > 0 {
 		r.Stats.probe("bundles_with_enumeration")
 	}
